@@ -360,14 +360,14 @@ def r11b(ctx):
     for n, b in pfind("not any((isinstance(V_e, V_t) for V_e in V_m))", sd):
         gen = n.operand.args[0]
         src = defs.expand(gen.generators[0].iter, at=n)
-        if "self.frame" not in unparse(src):
+        if "self.frame" not in ast.unparse(src):
             continue
         for e in _tuple_elts(defs.expand(gen.elt.args[1], at=n)):
             excluded.add(dotted(e))
     for n, b in pfind("not any((isinstance(V_e, V_t) and V_e.V_prop for V_e in V_m))", sd):
         gen = n.operand.args[0]
         src = defs.expand(gen.generators[0].iter, at=n)
-        if "self.frame" not in unparse(src):
+        if "self.frame" not in ast.unparse(src):
             continue
         for e in _tuple_elts(gen.elt.values[0].args[1]):
             cond_excluded[dotted(e)] = b["V_prop"]
